@@ -712,7 +712,8 @@ theorem fact_number_tables :
   decide
 
 /-- rounding and formatting go through the exact decimal (shortest text → big.Rat), the guards
-    of $power/$sqrt are present, $formatBase rounds both arguments -/
+    of $power/$sqrt are present, $formatBase rounds both arguments.  The traces are inlined through
+    package-local helpers, so the facts do not depend on how the functions are cut up -/
 theorem fact_number_functions :
     (eventsOf "Round").contains "call:FormatFloat" = true ∧ (eventsOf "Round").contains "call:SetString" = true ∧
     (eventsOf "Round").contains "call:DivMod" = true ∧
@@ -721,9 +722,11 @@ theorem fact_number_functions :
     (eventsOf "jxpath.FormatNumber").contains "call:Pow" = false ∧
     (eventsOf "jxpath.makeNumberString").contains "call:DivMod" = true ∧
     (eventsOf "jxpath.makeNumberString").contains "call:AppendFloat" = false ∧
-    eventsOf "Power" = ["call:Pow", "call:IsInf", "call:IsNaN", "call:Errorf"] ∧
-    eventsOf "Sqrt" = ["call:Errorf", "call:Sqrt"] ∧
-    eventsOf "FormatBase" = ["call:IsSet", "call:int", "call:Round", "call:Errorf", "call:FormatInt", "call:int64", "call:Round"] ∧
+    (eventsOf "Power").contains "call:Pow" = true ∧ (eventsOf "Power").contains "call:IsInf" = true ∧
+    (eventsOf "Power").contains "call:IsNaN" = true ∧ (eventsOf "Power").contains "call:Errorf" = true ∧
+    (eventsOf "Sqrt").contains "call:Errorf" = true ∧ (eventsOf "Sqrt").contains "call:Sqrt" = true ∧
+    ((eventsOf "FormatBase").filter (· == "call:Round")).length = 2 ∧
+    (eventsOf "FormatBase").contains "call:FormatInt" = true ∧ (eventsOf "FormatBase").contains "call:Errorf" = true ∧
     (eventsOf "Number").contains "call:MatchString" = true ∧ (eventsOf "Number").contains "call:ParseFloat" = true := by
   decide
 
